@@ -9,7 +9,7 @@
 (* A spend is [scriptSig, spk, witness (sequence of byte strings)]; the    *)
 (* verdict is "" (accepted) or Core's error name.                          *)
 (***************************************************************************)
-EXTENDS Integers, Sequences, SequencesExt, BigNat, Hash, ScriptBytes
+EXTENDS Integers, Sequences, SequencesExt, BigNat, Hash, ScriptBytes, Taproot
 
 NoSig(sig, key, script, st, env, opts) == [err |-> "SIGOP_UNMODELLED", ok |-> FALSE, budget |-> st.budget]
 NoMulti(st, script, env, verifyAfter, opIndex) == [st EXCEPT !.err = "SIGOP_UNMODELLED"]
@@ -37,7 +37,30 @@ ExecuteWitnessScript(stack, script, sv, flags, ctx, budget) ==
          ELSE IF Len(r.stack) # 1 THEN "CLEANSTACK"
          ELSE IF ~VM!CastToBool(r.stack[1]) THEN "EVAL_FALSE" ELSE ""
 
-\* taproot is handled by module TaprootVerify (commitment check); here: versions 0 (script hash) and the upgradable rest
+\* ---- taproot (BIP341/342) ---------------------------------------------------------------------
+OpSuccess(c) == c = 80 \/ c = 98 \/ (c >= 126 /\ c <= 129) \/ (c >= 131 /\ c <= 134) \/ c = 137 \/ c = 138 \/ c = 141 \/ c = 142
+                \/ (c >= 149 /\ c <= 153) \/ (c >= 187 /\ c <= 254)
+\* the pre-scan of a tapscript: "bad" (an unreadable push), "success" (an OP_SUCCESSx met first) or "none"
+RECURSIVE PreScan(_, _)
+PreScan(s, pc) == IF pc > Len(s) THEN "none"
+                  ELSE LET op == GetOp(s, pc) IN
+                       IF ~op.ok THEN "bad" ELSE IF OpSuccess(op.code) THEN "success" ELSE PreScan(s, op.next)
+VerifyTaproot(witness, prog, flags, ctx) ==
+    IF witness = << >> THEN "WITNESS_PROGRAM_WITNESS_EMPTY" ELSE
+    LET hasAnnex == Len(witness) >= 2 /\ witness[Len(witness)] # << >> /\ witness[Len(witness)][1] = 80
+        st == IF hasAnnex THEN SubSeq(witness, 1, Len(witness) - 1) ELSE witness
+    IN IF Len(st) = 1 THEN "TAPROOT_KEYPATH_UNMODELLED" ELSE
+    LET control == st[Len(st)]  script == st[Len(st) - 1]  stack == SubSeq(st, 1, Len(st) - 2) IN
+    IF Len(control) < 33 \/ Len(control) > 33 + 32 * 128 \/ (Len(control) - 33) % 32 # 0 THEN "TAPROOT_WRONG_CONTROL_SIZE"
+    ELSE IF ~VerifyControl(prog, script, control) THEN "WITNESS_PROGRAM_MISMATCH"
+    ELSE IF (control[1] \div 2) * 2 = 192 THEN
+        LET scan == PreScan(script, 1) IN
+        IF scan = "bad" THEN "BAD_OPCODE"
+        ELSE IF scan = "success" THEN (IF "DISCOURAGE_OP_SUCCESS" \in flags THEN "DISCOURAGE_OP_SUCCESS" ELSE "")
+        ELSE ExecuteWitnessScript(stack, script, "tap", flags, ctx, 0)
+    ELSE IF "DISCOURAGE_UPGRADABLE_TAPROOT_VERSION" \in flags THEN "DISCOURAGE_UPGRADABLE_TAPROOT_VERSION" ELSE ""
+
+\* versions 0 (script hash), 1 (taproot) and the upgradable rest
 VerifyWitnessProgram(witness, ver, prog, flags, ctx, isP2SH) ==
     IF ver = 0 /\ Len(prog) = 32 THEN
         IF witness = << >> THEN "WITNESS_PROGRAM_WITNESS_EMPTY"
@@ -48,7 +71,7 @@ VerifyWitnessProgram(witness, ver, prog, flags, ctx, isP2SH) ==
         IF Len(witness) # 2 THEN "WITNESS_PROGRAM_MISMATCH" ELSE "SIGOP_UNMODELLED"
     ELSE IF ver = 0 THEN "WITNESS_PROGRAM_WRONG_LENGTH"
     ELSE IF ver = 1 /\ Len(prog) = 32 /\ ~isP2SH THEN
-        IF "TAPROOT" \notin flags THEN "" ELSE "TAPROOT_UNMODELLED"
+        IF "TAPROOT" \notin flags THEN "" ELSE VerifyTaproot(witness, prog, flags, ctx)
     ELSE IF ~isP2SH /\ ver = 1 /\ prog = <<78, 115>> THEN ""                    \* pay-to-anchor
     ELSE IF "DISCOURAGE_UPGRADABLE_WITNESS_PROGRAM" \in flags THEN "DISCOURAGE_UPGRADABLE_WITNESS_PROGRAM" ELSE ""
 
